@@ -87,6 +87,11 @@ class C18:
         r = rnd.random()
         if r < 0.45:
             sc = pipeline.gen_scenario(rnd, KPROFILE)
+            for n_, p_ in sc["program"]:
+                if p_.get("confidence_method") in ("ambiguity", "risk"):
+                    # eta_max/eta_step away from an integer ratio: the sample count is then the same under every executor
+                    p_["eta_max"], p_["eta_step"] = rnd.choice([(0.33, 0.05), (0.5, 0.07), (0.7, 0.03), (0.9, 0.07),
+                                                                (0.2, 0.03), (0.7, 0.011)])
             return {"harness": "kernel", "world": sc["world"], "program": sc["program"],
                     "threads": rnd.choice([2, 2, 3, 4]), "assignment": rnd.choice(["static", "static", "random"]),
                     "schedules": [[rnd.choice(STRATEGIES), rnd.getrandbits(32)] for _ in range(6 if tier == "quick" else 12)]}
